@@ -353,7 +353,36 @@ func main() {
 						// pointer receiver field write on keeper-like types
 						if f.decl.Recv != nil && len(f.decl.Recv.List) > 0 && len(f.decl.Recv.List[0].Names) > 0 &&
 							id.Name == f.decl.Recv.List[0].Names[0].Name && lhs != root {
-							if _, isPtr := f.decl.Recv.List[0].Type.(*ast.StarExpr); isPtr {
+							_, isPtr := f.decl.Recv.List[0].Type.(*ast.StarExpr)
+							// a value receiver still shares maps, slices and pointees with every other copy
+							shared := false
+							for x := lhs; x != root; {
+								switch y := x.(type) {
+								case *ast.SelectorExpr:
+									if tv, ok := info.Types[y.X]; ok {
+										if _, isP := tv.Type.Underlying().(*types.Pointer); isP && y.X != root {
+											shared = true
+										}
+									}
+									x = y.X
+								case *ast.IndexExpr:
+									if tv, ok := info.Types[y.X]; ok {
+										switch tv.Type.Underlying().(type) {
+										case *types.Map, *types.Slice, *types.Pointer:
+											shared = true
+										}
+									}
+									x = y.X
+								case *ast.StarExpr:
+									shared = true
+									x = y.X
+								case *ast.ParenExpr:
+									x = y.X
+								default:
+									x = root
+								}
+							}
+							if isPtr || shared {
 								rn := recvName(f.decl)
 								if rn == "Keeper" || rn == "msgServer" || rn == "Hooks" || rn == "App" || rn == "AppModule" {
 									add("recvwrite", rn+"."+types.ExprString(lhs))
@@ -585,6 +614,53 @@ func main() {
 	}
 	sort.Strings(gl)
 	writeStrList(&b, "mutable_globals", gl)
+	// fields of keeper-like structs that can hold state outside the store: maps, slices, channels,
+	// sync primitives and pointers to plain data (not to other keepers / codecs / store keys)
+	var krf []string
+	for _, p := range consPkgs {
+		if !strings.Contains(p.PkgPath, "/x/") {
+			continue
+		}
+		sc := p.Types.Scope()
+		for _, nm := range sc.Names() {
+			if nm != "Keeper" && nm != "msgServer" && nm != "Hooks" && nm != "AppModule" && nm != "AppModuleBasic" {
+				continue
+			}
+			tn, ok := sc.Lookup(nm).(*types.TypeName)
+			if !ok {
+				continue
+			}
+			st, ok := tn.Type().Underlying().(*types.Struct)
+			if !ok {
+				continue
+			}
+			for i := 0; i < st.NumFields(); i++ {
+				fl := st.Field(i)
+				kind := ""
+				switch u := fl.Type().Underlying().(type) {
+				case *types.Map:
+					kind = "map"
+				case *types.Slice:
+					kind = "slice"
+				case *types.Chan:
+					kind = "chan"
+				case *types.Pointer:
+					if b, ok := u.Elem().Underlying().(*types.Basic); ok {
+						kind = "ptr-" + b.Name()
+					}
+				case *types.Struct:
+					if strings.HasPrefix(fl.Type().String(), "sync.") {
+						kind = "sync"
+					}
+				}
+				if kind != "" {
+					krf = append(krf, short(p.PkgPath)+"."+nm+"."+fl.Name()+":"+kind)
+				}
+			}
+		}
+	}
+	sort.Strings(krf)
+	writeStrList(&b, "keeper_ref_fields", krf)
 	sort.Slice(bank, func(i, j int) bool {
 		if bank[i][1] != bank[j][1] {
 			return bank[i][1] < bank[j][1]
